@@ -12,7 +12,7 @@ for d in $DIR/seeded/${PFX}*C[0-9][0-9]-*; do
   grep -v "^$name	" $OUTF > $OUTF.tmp; mv $OUTF.tmp $OUTF
   rel=$(grep "^$name " $DIR/tools/seeded_related.txt | cut -d' ' -f2-)
   for id in $own $rel; do
-    r=$($DIR/tools/try_mutant.sh $d/patch.diff $id | tail -1)
+    r=$(PV_SHRINK_CALLS=${PV_SHRINK_CALLS:-0} $DIR/tools/try_mutant.sh $d/patch.diff $id | tail -1)
     echo "$name	$id	$r" | tee -a $OUTF
   done
 done
